@@ -1,0 +1,77 @@
+//go:build verif
+
+package quic
+
+// Formerly trusted contracts brought under check (extend + untrusted).
+
+// splAtRaw: the packet k slots after slot off in the ring p (splAt over explicit components, so
+// that the entry offset can be combined with the current ring contents).
+//
+//@ pure
+func splAtRaw(p []*sentPacket, off, k int) *sentPacket {
+	idx := off + k
+	if idx >= len(p) {
+		idx -= len(p)
+	}
+	return p[idx]
+}
+
+// clean (C26): only packets that already have a fate (state != sentPacketSent) are dropped, they are
+// dropped from the front only (the first old(size)-size packets), every droppable packet at the
+// front is dropped (the new first packet, if any, is still "sent"), the retained packets are the
+// same records in the same slots, and the start offset advances by the number dropped (mod len).
+//
+//@ extend (*sentPacketList).clean(s)
+//@   untrusted
+//@   timeout 100
+//@   uses lemmaModWrap
+//@   abstractrem
+//@   requires s != nil && splOK(s)
+//@   requires forall k int :: splNoNil(s, k)
+//@   ensures  splOK(s) && s.nextNum == old(s.nextNum) && 0 <= s.size && s.size <= old(s.size)
+//@   ensures  s.size == 0 ==> s.off == 0
+//@   ensures  s.size > 0 ==> s.off == ite(old(s.off) + (old(s.size) - s.size) >= len(s.p), old(s.off) + (old(s.size) - s.size) - len(s.p), old(s.off) + (old(s.size) - s.size))
+//@   ensures  s.size > 0 ==> splAt(s, 0) != nil && splAt(s, 0).state == sentPacketSent
+//@   ensures  forall k int :: 0 <= k && k < old(s.size) - s.size ==> old(splAt(s, k).state) != sentPacketSent
+//@   ensures  forall k int :: old(s.size) - s.size <= k && k < old(s.size) ==> splAtRaw(s.p, old(s.off), k) == old(splAt(s, k)) && splAtRaw(s.p, old(s.off), k) != nil
+//@   ensures  samebase(s.p, old(s.p)) && startoff(s.p) == old(startoff(s.p)) && len(s.p) == old(len(s.p))
+//@   loop 1 invariant splOK(s) && s.nextNum == old(s.nextNum) && 0 <= s.size && s.size <= old(s.size)
+//@   loop 1 invariant samebase(s.p, old(s.p)) && startoff(s.p) == old(startoff(s.p)) && len(s.p) == old(len(s.p))
+//@   loop 1 invariant s.off == ite(old(s.off) + (old(s.size) - s.size) >= len(s.p), old(s.off) + (old(s.size) - s.size) - len(s.p), old(s.off) + (old(s.size) - s.size))
+//@   loop 1 invariant forall k int :: 0 <= k && k < old(s.size) - s.size ==> old(splAt(s, k).state) != sentPacketSent
+//@   loop 1 invariant forall k int :: old(s.size) - s.size <= k && k < old(s.size) ==> splAtRaw(s.p, old(s.off), k) == old(splAt(s, k)) && splAtRaw(s.p, old(s.off), k) != nil
+//@   loop 1 invariant s.size > 0 ==> splAtRaw(s.p, old(s.off), old(s.size) - s.size) != nil && splAtRaw(s.p, old(s.off), old(s.size) - s.size) == s.p[s.off]
+//@   loop 1 modifies s.off, s.size, elems(s.p)
+
+// newSentPacket stays trusted: a contract for (*sync.Pool).Get in /verif/stdlib cannot name quic's
+// sentPool or *sentPacket ("unknown identifier sentPool"), so the dynamic type of the pooled value
+// cannot be stated per pool.
+
+// datagram (C27): returns exactly the writer's buffer. That the buffer stays within dgramLim is an
+// invariant of the packet writer (frame appenders check avail()), stated as a precondition here;
+// maybeSend (partial pre) assumes it.
+//
+//@ extend (*packetWriter).datagram(w) (r)
+//@   untrusted
+//@   requires len(w.b) <= w.dgramLim
+//@   ensures  samebase(r, w.b) && startoff(r) == startoff(w.b) && len(r) == len(w.b) && cap(r) == cap(w.b)
+
+// recycle (C30): the chunk is detached (off 0, next nil) and handed to the pool; its bytes are not
+// touched.
+//
+//@ extend (*pipebuf).recycle(b)
+//@   untrusted
+//@   ensures b.off == 0 && b.next == nil
+
+// scheduleTimer (C26/C27): checked frame (only the two timer fields change; in particular neither
+// the congestion controller, the anti-amplification budget nor any packet record) and which timer
+// can be armed: the PTO timer is never armed after the PTO has expired without a probe, nor while
+// the server sits at its anti-amplification limit (less than a minimum packet left). No-panic and
+// callee preconditions (ring-buffer invariants of the three spaces, needed by nth/num) are assumed.
+//
+//@ extend (*lossState).scheduleTimer(c, now)
+//@   untrusted
+//@   partial nopanic, pre
+//@   requires c != nil
+//@   ensures  c.ptoTimerArmed ==> !c.ptoExpired
+//@   ensures  c.ptoTimerArmed ==> !(c.antiAmplificationLimit >= 0 && c.antiAmplificationLimit < minPacketSize)
